@@ -14,6 +14,7 @@ from gwf.backends import slurm as slurm_mod
 from gwf.core import Target
 
 META = {
+    "solver_reasoned": 'finish times of jobs (Q7d, symbolic ints); prerequisite ids as symbolic digit strings (Q7s, string theory); exit codes and event scripts (Q7p); otherwise selectors over id/state catalogues.',
     "real": ["gwf.backends.slurm.SlurmOps.submit_target", "gwf.backends.sge.SGEOps.submit_target", "gwf.backends.lsf.LSFOps.submit_target",
              "gwf.backends.local.LocalOps.submit_target", "gwf.backends.local.Client.submit/send/recv/connect", "gwf.backends.local.encode/decode",
              "gwf.backends.utils.call", "gwf.backends.base.TrackingBackend.__init__/submit/status/close", "gwf.backends.*.create_backend",
